@@ -59,6 +59,9 @@ type Scenario struct {
 	Check func(state any, s *vcore.Sched) (sig, detail, obs string)
 	// DeadlockSig names a deadlock for the findings file.
 	DeadlockSig func(state any, s *vcore.Sched) string
+	// Idle is called when no thread is enabled; it may release legitimately blocked threads
+	// (scenario teardown) and return true, or return false (then it is a deadlock).
+	Idle func(state any, s *vcore.Sched) bool
 	// BlockedOK says that the threads left blocked at the end are blocked legitimately
 	// (e.g. a deref of a future that never completes); the execution is then judged by Check.
 	BlockedOK func(state any, s *vcore.Sched) bool
@@ -110,6 +113,9 @@ func RunOnce(sc *Scenario, prefix []int, red *vcore.Reduction) (*vcore.Sched, an
 	s.VisibleClass = [3]bool{sc.VisibleEnv, sc.VisibleAtom, sc.VisibleHook}
 	s.BeginSetup()
 	st := sc.Setup()
+	if sc.Idle != nil {
+		s.IdleHook = func() bool { return sc.Idle(st, s) }
+	}
 	s.Run(sc.Threads(st)...)
 	return s, st
 }
